@@ -231,6 +231,7 @@ func runC03(run *core.Run) {
 		reps := 1 + r.Intn(3)
 		for k := 0; k < reps; k++ {
 			l := &gen.Layout{R: r, Wild: r.Intn(6) != 0, CRLF: r.Intn(4) == 0, Comments: r.Intn(2) == 0}
+			l.ExprComments = l.Comments && r.Intn(3) == 0
 			if i%8 == 3 && k == 0 && l.Wild {
 				l.Mixed = true // LF and CRLF line ends mixed in one file
 				run.Count("texts_with_mixed_line_ends", 1)
